@@ -55,6 +55,18 @@ candidate), either one defined first; serial, scripted parallel schedules (2 per
 `doit run [--auto-delayed-regex] out_b.txt | gen_a/x.txt | nothing.txt` under the serial, thread and process runners (exact log).
 Oracle RC (candidates_oracle, shapes regex-target-wrong-candidate / regex-target-candidate-missing; found the seeded change C15d).
 
+Phase 3 (gen_rerun / run_sequence / run_main_sequence; every seed, after the other phases): SEVERAL RUNS IN ONE PROCESS over the same creator
+FUNCTION OBJECTS (DoitMain.run twice, doit.api, %doit, a test-suite of a dodo file): one namespace dict is built once, then 2-3 times
+load_tasks(namespace) + TaskControl + process(selection_i) + runner (serial Runner / MThreadRunner under a drawn schedule), with different selections
+(everything, a placeholder name, a sub-task of a delayed task by name, a target resolved by target_regex / --auto-delayed-regex, two words);
+every third sequence also as DoitMain(ModuleTaskLoader(namespace)).run([...]) per run (real dependency manager, new DB file per run).  EVERY run is
+judged on its own by all oracles below and compared with the model like a single run: the model starts every run from fresh loaders (run_impl renders
+l_created = false, l_basename = None for every DelayedLoader) -- "each run starts from fresh DelayedLoader copies" is what load_tasks must guarantee
+(oracle LF reads it off the objects load_tasks handed out; Model/Delayed.v load_state / Properties/C15.v C15_every_load_hands_out_fresh_copies prove it
+for load_tasks' copies from the frame property of runs; the seeded change C15e -- no copy for plain-function creators without creates= -- is the
+refuted variant LdShare).  Oracle RR (shape run-depends-on-earlier-run-in-process): each run of a sequence equals the same command on a freshly built,
+identically defined namespace (event by event when the recorded wake orders agree, else exit status 0 / non-0 and, both 0, the events as a multiset).
+
 Independent oracle (no model): O1 a creator body starts at most once per run (every runner incl. real threads, DoitMain,
 and `python -m doit run -n 2 -P thread|process` on the fixed dodo family e2e_family); O1b a placeholder name is never
 reported before its creator ran; O2 only after a final report of the `executed` task; O3 tasks run once, after their
@@ -868,19 +880,33 @@ class DispProxy:
         return getattr(self._disp, a)
 
 
-def run_impl(case, flavour='serial', par=None):
+def make_shared(case):
+    """ONE namespace of creator functions (the function objects that carry func.doit_create_after) for several runs in this process"""
+    sh = dict(nid=Ids(), log=[], gate=[None])
+    sh['ns'] = build_ns(case, sh['log'], sh['nid'], gate=sh['gate'])
+    return sh
+
+
+def run_impl(case, flavour='serial', par=None, shared=None):
     """flavour: 'serial' | 'thread' (MThreadRunner, real threads, 2 workers) | 'dthread' (MThreadRunner under the
-    deterministic scheduler of harness/runlib.py; par = dict(k=<workers>, sched=[choices]))"""
+    deterministic scheduler of harness/runlib.py; par = dict(k=<workers>, sched=[choices])).
+    shared (make_shared): load_tasks is called on a namespace that earlier runs of this process were loaded from already
+    (the same creator FUNCTION OBJECTS); the log is emptied, everything else (TaskControl, dispatcher, runner, fake
+    dependency manager, reporter) is new, as in a second DoitMain.run of one process"""
     import doit.control as C
     import doit.runner as R
     from doit.loader import load_tasks
     from doit.exceptions import InvalidTask, InvalidDodoFile, InvalidCommand
     import runlib
-    nid = Ids()
-    log = []
-    gate = [None]
+    if shared is None:
+        nid = Ids()
+        log = []
+        gate = [None]
+    else:
+        nid, log, gate = shared['nid'], shared['log'], shared['gate']
+        del log[:]
     try:
-        ns = build_ns(case, log, nid, gate=gate)
+        ns = build_ns(case, log, nid, gate=gate) if shared is None else shared['ns']
         task_list = load_tasks(ns, allow_delayed=True)
         tc = C.TaskControl(task_list, auto_delayed_regex=case['auto'])
     except (InvalidTask, InvalidDodoFile) as e:
@@ -911,6 +937,14 @@ def run_impl(case, flavour='serial', par=None):
             cid_of[id(L)] = cid
             snap['ld'].append((nid(t.name), 'Build_loader %d %s None false %s' % (
                 cid, ('(Some %d)' % nid(L.task_dep)) if L.task_dep else 'None', b(bool(L.target_regex)))))
+    # LF: what the model input asserts for every run (l_created = false, l_basename = None above: "each run starts from fresh
+    #     DelayedLoader copies") read off the real objects load_tasks handed out; judged by oracle()
+    stale = []
+    for t in task_list:
+        if t.loader and (t.loader.created or t.loader.basename is not None):
+            stale.append('%s: created=%r basename=%r%s' % (t.name, t.loader.created, t.loader.basename,
+                         ' (the DelayedLoader object stored on the creator function itself)' if getattr(t.loader.creator, 'doit_create_after', None) is t.loader else ''))
+    on_func = sorted(t.name for t in task_list if t.loader and getattr(t.loader.creator, 'doit_create_after', None) is t.loader)
     snap['tg'] = [(nid(f), nid(k)) for f, k in tc.targets.items()]
     snap['creators'] = {}
     for cid, per in couts.items():
@@ -1029,7 +1063,7 @@ def run_impl(case, flavour='serial', par=None):
     # deterministic parallel run: the runner's calls (markers 60-73) are part of what is compared
     strace = [x for ev in events if (ev[0] < 50 or 60 <= ev[0] < 80) for x in ev]
     return dict(events=events, trace=trace, strace=strace, rc=rc, snap=snap, wake=wake, nid=nid, tc=tc, initial=initial,
-                cnames=cnames, crash=crash, init_loader=init_loader,
+                cnames=cnames, crash=crash, init_loader=init_loader, stale_loaders=stale, loaders_on_function=on_func,
                 arity=(list(runlib.S.arity) if (flavour == 'dthread' and runlib.S) else []))
 
 
@@ -1114,6 +1148,11 @@ def oracle(case, res, out, flavour, par=None):
                         if k != 1:
                             viol.append(dict(what='created task %s: its action ran %d times' % (y, k),
                                              shape='created-task-not-executed-once', case=small))
+    # LF every run starts from fresh DelayedLoader copies: what load_tasks handed out says created=False, basename=None (the
+    #    hypothesis under which the model is evaluated for EVERY run: run_impl renders l_created = false, l_basename = None)
+    for s_ in res.get('stale_loaders', []):
+        viol.append(dict(what='load_tasks handed out a DelayedLoader that is not fresh -- %s: state written by an earlier run of this process '
+                              '(TaskDispatcher._add_task / _filter_tasks) is visible to this run' % s_, shape='loader-state-leaks-between-runs', case=small))
     # O3 created (and static) tasks: executed at most once, after their task_deps
     deps = {}
     for s in case['statics']:
@@ -1444,13 +1483,18 @@ def twin_oracle(case, res, out, small):
 
 
 # ------------------------------------------------------------------------------------------ DoitMain end to end
-def run_main(ctx, case, idx):
-    """the same namespace through DoitMain.run(['run', ...]) with the real dependency manager"""
+def run_main(ctx, case, idx, shared=None, names=False):
+    """the same namespace through DoitMain.run(['run', ...]) with the real dependency manager (shared: see run_impl; a new
+    DoitMain / ModuleTaskLoader, DB file and output file per call, the namespace dict and its functions are the same)"""
     from doit.doit_cmd import DoitMain
     from doit.cmd_base import ModuleTaskLoader
-    nid = Ids(); log = []
-    ns = build_ns(case, log, nid)
-    d = ctx.subdir('main%d' % idx)
+    if shared is None:
+        nid = Ids(); log = []
+        ns = build_ns(case, log, nid)
+    else:
+        nid, log, ns = shared['nid'], shared['log'], shared['ns']
+        del log[:]
+    d = ctx.subdir('main%s' % idx)
     ns['DOIT_CONFIG'] = {'dep_file': os.path.join(d, 'db'), 'verbosity': 0, 'backend': 'json'}
     args = ['run', '-o', os.path.join(d, 'out.txt')] + (['--auto-delayed-regex'] if case['auto'] else []) + (['--continue'] if case['cont'] else []) + list(case['sel'] or [])
     saved = (sys.stdout, sys.stderr)
@@ -1466,6 +1510,9 @@ def run_main(ctx, case, idx):
     finally:
         os.chdir(cwd)
         sys.stdout, sys.stderr = saved
+    if names:      # events by name: the ids of two namespaces differ
+        inv = {v: k for k, v in nid.m.items()}
+        return rc, [(e[0], inv.get(e[1], '?') if e[0] == 51 else e[1]) for e in log], err
     return rc, log, err
 
 
@@ -1894,6 +1941,256 @@ def e2e_rxcand_family(ctx, out):
     return n
 
 
+# ------------------------------------------------------------------------------------------ several runs in ONE process
+RERUN_KINDS = ['subrx', 'calc', 'rxcand', 'regex', 'auto', None, 'multi', 'subrx', 'calc', 'k3', None, 'regex']
+
+
+def rerun_words(case):
+    """(placeholder names, sub-tasks of placeholder names that exist once the creator ran, (created target, creator) pairs)"""
+    phs, subs, tgts = [], [], []
+    for c in case['creators']:
+        names = c['creates'] or [c['fname']]
+        phs += names
+        for it in c['items']:
+            if (it['basename'] or not c['creates']) and it['sub'] is not None and item_name(c, it).split(':')[0] in names:
+                subs.append(item_name(c, it))
+            tgts += [(t, c) for t in it['targets']]
+    return phs, subs, tgts
+
+
+def gen_rerun(rng):
+    """a case of one of the kinds above + 2-3 RUNS over it in one process: each run its own selection (everything / a placeholder
+    name / a sub-task of a delayed task by name / a target of a created task, resolved by target_regex or --auto-delayed-regex /
+    the case's own words / two random words) and its own runner (serial Runner; MThreadRunner under a drawn schedule)"""
+    case = gen_case(rng, rng.choice(RERUN_KINDS))
+    case.pop('rx', None)       # (oracle RC3 of kind rxcand speaks about the one selection gen_rxcand drew)
+    phs, subs, tgts = rerun_words(case)
+    # a created target can be asked for when its creator's DECLARATION allows it: its target_regex matches, or it declares none
+    # (then with --auto-delayed-regex); kind rxcand has creators whose regex misses their own targets on purpose
+    tgts = [(t, c) for t, c in tgts if not c['regex'] or re.match(c['regex'], t)]
+    snames = [s['name'] for s in case['statics']]
+
+    def one():
+        r = rng.random()
+        auto = case['auto']
+        if r < 0.25:
+            return None, auto, 'all'
+        if r < 0.40:
+            return [rng.choice(phs)], auto, 'placeholder'
+        if r < 0.60 and subs:
+            return [rng.choice(subs)], auto, 'sub-task by name'
+        if r < 0.82 and tgts:
+            t, c = rng.choice(tgts)
+            return [t], (auto or not c['regex']), 'created target'
+        if r < 0.9:
+            return case['sel'], auto, 'own'
+        pool = phs + subs + [t for t, _ in tgts] + snames + ['nope']
+        return [rng.choice(pool) for _ in range(2)], auto or rng.random() < 0.5, 'two words'
+    runs = []
+    for i in range(rng.choice([2, 2, 3])):
+        sel, auto, how = (case['sel'], case['auto'], 'own') if (i == 0 and rng.random() < 0.4) else one()
+        fl = 'serial' if rng.random() < 0.7 else 'dthread'
+        runs.append(dict(sel=sel, auto=auto, how=how, flavour=fl,
+                         par=dict(k=rng.choice([2, 2, 3]), sched=[rng.randrange(0, 60) for _ in range(40)]) if fl == 'dthread' else None))
+    return case, runs
+
+
+def ev_names(res):
+    """events with names instead of ids (two namespaces number their strings differently)"""
+    inv = {v: k for k, v in res['nid'].m.items()}
+    evs = []
+    for e in res['events']:
+        c = e[0]
+        if c in (1, 2, 3, 5, 6, 7, 8, 9, 51, 60, 71, 72):
+            evs.append((c, inv.get(e[1], '?')))
+        elif c == 4:
+            evs.append((c, inv.get(e[1], '?'), e[2]))
+        elif c == 14:
+            evs.append((c, e[1], inv.get(e[2], '?'), inv.get(e[3], '?')))
+        elif c in (15, 70):
+            evs.append((c, inv.get(e[1], '?') if e[1] else None))
+        else:
+            evs.append(tuple(e))
+    return evs
+
+
+def names_fixed(case):
+    """the names of the created tasks do not depend on WHICH placeholder's loader evaluates the creator (an item without basename
+    takes the name generate_tasks is called with: with several names in `creates` that is the placeholder reached first)"""
+    return all(it['basename'] or not c['creates'] or len(c['creates']) == 1 for c in case['creators'] for it in c['items'])
+
+
+def wake_names(res):
+    inv = {v: k for k, v in res['nid'].m.items()}
+    return {inv.get(p_, '?'): [inv.get(x, '?') for x in order] for p_, order in res['wake'].items()}
+
+
+def cmd_of(r):
+    return 'doit run %s%s%s' % ('--auto-delayed-regex ' if r['auto'] else '', '-n %d -P thread ' % r['par']['k'] if r.get('par') else '', ' '.join(r['sel'] or []))
+
+
+def run_sequence(case, runs, out, cases=None, metas=None, sfx='r0', verbose=False):
+    """runs[i] = dict(sel, auto, flavour, par): all of them IN THIS PROCESS over ONE namespace (make_shared: the creator function
+    objects, hence the DelayedLoader objects create_after stored on them, are the same for every run; load_tasks, TaskControl,
+    dispatcher, runner, reporter and dependency manager are new for every run).  EVERY run is judged on its own:
+      - oracle(): all of O1-O7, R, RC, LF exactly as for a single run (creator evaluated at most once, after its trigger; a reported
+        placeholder name was materialised first; created tasks executed as their behaviour demands; static twin);
+      - RR (shape run-depends-on-earlier-run-in-process): the run is repeated on a freshly built, identically defined namespace (what a
+        new process would load): same exit status and the same events, one by one (serial Runner and drawn schedules are deterministic);
+      - the model: the run is rendered like any single run -- loaders fresh (l_created = false, l_basename = None) -- and compared
+        with Delayed.run_cmd / run_script_cmd.
+    Returns None (namespace does not load) or a list of dict(res, viol) per run"""
+    from doit.exceptions import InvalidTask, InvalidDodoFile
+    try:
+        sh = make_shared(case)
+    except (InvalidTask, InvalidDodoFile):
+        return None
+    results = []
+    for i, r in enumerate(runs):
+        ci = dict(case, sel=r['sel'], auto=r['auto'], rerun=dict(runs=runs, index=i))
+        fl, par = r['flavour'], r.get('par')
+        where = 'run %d of %d in one process over the same creator functions (%s)' % (i + 1, len(runs), '; then '.join('`%s`' % cmd_of(x) for x in runs[:i + 1]))
+        try:
+            res = run_impl(ci, fl, par, shared=sh)
+        except BaseException as e:  # noqa
+            v = dict(what='%s: the run failed in the harness: %r' % (where, e), shape='rerun-crash', case=dict(ci, flavour=fl, par=par))
+            out.violations.append(v)
+            results.append(dict(res=None, viol=[v]))
+            continue
+        if 'skip' in res:
+            if i == 0:
+                return None
+            if not res['skip'].startswith('load-error'):     # (generate_tasks rejects a word of THIS selection as a basename: outside the model)
+                out.count('rerun: run skipped (%s)' % res['skip'].split(':')[0])
+                results.append(dict(res=None, viol=[]))
+                continue
+            v = dict(what='%s: %s, although the first run of the sequence loaded the same namespace' % (where, res['skip']),
+                     shape='run-depends-on-earlier-run-in-process', case=dict(ci, flavour=fl, par=par))
+            out.violations.append(v)
+            results.append(dict(res=None, viol=[v]))
+            continue
+        prepare(res, ci)
+        viol = oracle(ci, res, out, fl, par)
+        mine = ev_names(res)
+        evald = sorted(e[1] for e in res['events'] if e[0] == 50)
+        # RR: the same command where it is the first thing the process does
+        if fl in ('serial', 'dthread') and res['rc'] not in (97, 98):
+            try:
+                ref = run_impl(ci, fl, par)
+            except BaseException as e:  # noqa
+                ref = dict(skip='harness crash %r' % e)
+            if 'skip' not in ref:
+                theirs = ev_names(ref)
+                # ExecNode.waiting_me is a set of objects hashed by address: the order in which the waiters of a processed node are
+                # woken is the one input that two identical runs do not share (recorded: wake_names).  Same orders: the runs are equal
+                # event by event.  Otherwise: both exit 0 or neither; both 0 (nothing cut short): the same events as a multiset
+                same_wake = all(ref_w == wake_names(res).get(k_, ref_w) for k_, ref_w in wake_names(ref).items())
+                if same_wake:
+                    differ = (res['rc'], mine) != (ref['rc'], theirs)
+                elif res['rc'] == 0 and ref['rc'] == 0:
+                    # (which placeholder's loader evaluates the creator, how often the runner polls: order-dependent; dropped)
+                    def bag(evs):
+                        return sorted(str(e[:2] if e[0] == 14 else e) for e in evs if e[0] < 52 and (names_fixed(case) or e[0] in (14, 50)))
+                    differ = bag(mine) != bag(theirs)
+                else:
+                    differ = (res['rc'] == 0) != (ref['rc'] == 0)
+                out.count('rerun: compared with a fresh namespace (%s)' % ('same wake orders: event by event' if same_wake else 'other wake order: exit status / multiset'))
+                if differ:
+                    k = next((j for j, (a, b_) in enumerate(zip(mine, theirs)) if a != b_), min(len(mine), len(theirs)))
+                    fnames = {c['cid']: c['fname'] for c in case['creators']}
+                    only_here = [e for e in mine if e[0] < 52 and e not in theirs][:6]
+                    only_there = [e for e in theirs if e[0] < 52 and e not in mine][:6]
+                    v = dict(what='%s: exit status %s, creators evaluated %s -- the same command as the first run of a process: exit status %s, creators '
+                                  'evaluated %s; first difference at event %d: %s here, %s there; events only here %s, only there %s (codes: 1 selected, 3 up-to-date, '
+                                  '5 executed, 6 success, 14 creator evaluated, 40 selection rejected, 15 target not found)' % (
+                                      where, res['rc'], [fnames.get(c, c) for c in evald], ref['rc'],
+                                      [fnames.get(e[1], e[1]) for e in ref['events'] if e[0] == 50], k,
+                                      mine[k] if k < len(mine) else 'end of run', theirs[k] if k < len(theirs) else 'end of run', only_here, only_there),
+                             shape='run-depends-on-earlier-run-in-process', case=dict(ci, flavour=fl, par=par))
+                    viol.append(v)
+                    out.violations.append(v)
+        if verbose:
+            print('%s\n  exit status %s; creators evaluated %s\n  events %s' % (where, res['rc'], evald, mine))
+            if res.get('loaders_on_function'):
+                print('  placeholders whose loader IS the object stored on the creator function: %s' % res['loaders_on_function'])
+        if res['rc'] in (97, 98):
+            v = dict(what='%s: thread runner (deterministic scheduler) crashed: %s' % (where, res['crash']), shape='thread-runner-crash',
+                     case=dict(ci, flavour=fl, par=par))
+            viol.append(v)
+            out.violations.append(v)
+        elif cases is not None and (fl == 'serial' or SCRIPT_MODEL):
+            s_ = '%sx%d' % (sfx, i)
+            if fl == 'serial':
+                defs, expr = render(ci, res['snap'], res['wake'], res['nid'], s_)
+                tr = res['trace']
+            else:
+                defs, expr = render(ci, res['snap'], res['wake'], res['nid'], s_, script=ops_of(res))
+                tr = res['strace']
+            cases.append(dict(defs=defs, model=expr, expected=tr + [-1, res['rc']] + ([] if tr[:1] == [40] else [-2, 1]),
+                              desc=dict(sel=ci['sel'], auto=ci['auto'], kind=case['kind'], flavour=fl, par=par,
+                                        run_in_process='%d of %d' % (i + 1, len(runs)), earlier=[cmd_of(x) for x in runs[:i]])))
+            metas.append((ci, res))
+        results.append(dict(res=res, viol=viol))
+    return results
+
+
+def run_main_sequence(ctx, case, runs, out, tag, verbose=False):
+    """the same through DoitMain(ModuleTaskLoader(namespace)).run([...]) several times in this process: one namespace dict, a new
+    DoitMain, DB file and output file per run (real dependency manager; every task without file_dep: always executed).
+      MD (shape run-depends-on-earlier-run-in-process): exit status and the sequence of creator evaluations / executed actions equal
+         those of the same command on a freshly built namespace; M1 no creator evaluated twice in a run; M3 `doit run` (everything)
+         with exit status 0 evaluates every creator exactly once"""
+    c2 = strip_files(case)
+    sh = dict(nid=Ids(), log=[])
+    sh['ns'] = build_ns(c2, sh['log'], sh['nid'])
+    viol = []
+    fnames = {c['cid']: c['fname'] for c in case['creators']}
+    for i, r in enumerate(runs):
+        ci = dict(c2, sel=r['sel'], auto=r['auto'], flavour='doitmain', rerun=dict(runs=runs, index=i, main=True))
+        where = 'DoitMain run %d of %d in one process over the same namespace (%s)' % (i + 1, len(runs), '; then '.join('`%s`' % cmd_of(dict(x, par=None)) for x in runs[:i + 1]))
+        rc, evs, err = run_main(ctx, ci, '%s_%d' % (tag, i), shared=sh, names=True)
+        rc_f, evs_f, err_f = run_main(ctx, ci, '%s_%df' % (tag, i), names=True)
+        out.count('rerun-doitmain-rc:%s' % rc)
+        ev_c = [fnames.get(e[1], e[1]) for e in evs if e[0] == 50]
+        if verbose:
+            print('%s\n  exit status %s; events %s\n  first run of a process: exit status %s; events %s' % (where, rc, evs, rc_f, evs_f))
+        # (no wake orders to look at here: both exit 0 or neither; both 0: the same evaluations and executions as a multiset)
+        def bag(es):
+            return sorted(str(e) for e in es if names_fixed(case) or e[0] == 50)
+        if (rc == 0) != (rc_f == 0) or (rc == 0 and bag(evs) != bag(evs_f)):
+            viol.append(dict(what='%s: exit status %s, creators evaluated %s, actions executed %s -- the same command as the first run of a process: exit status %s, '
+                                  'creators evaluated %s, actions executed %s%s' % (
+                                      where, rc, ev_c, [e[1] for e in evs if e[0] == 51], rc_f, [fnames.get(e[1], e[1]) for e in evs_f if e[0] == 50],
+                                      [e[1] for e in evs_f if e[0] == 51], ('; stderr: ' + err.strip().splitlines()[-1][:160]) if err.strip() else ''),
+                             shape='run-depends-on-earlier-run-in-process', case=ci))
+        for c in case['creators']:
+            k = ev_c.count(c['fname'])
+            if k > 1:
+                viol.append(dict(what='%s: creator %s evaluated %d times' % (where, c['fname'], k), shape='creator-evaluated-twice', case=ci))
+            if k != 1 and r['sel'] is None and rc == 0:
+                viol.append(dict(what='%s: everything selected, exit status 0, but creator %s was evaluated %d times: the tasks it defines are missing from the run' % (
+                    where, c['fname'], k), shape='creator-not-evaluated', case=ci))
+    out.violations += viol
+    return viol
+
+
+def replay_rerun(ctx, case):
+    base = {k: v for k, v in case.items() if k not in ('rerun', 'flavour', 'par')}
+    runs = case['rerun']['runs'][:case['rerun']['index'] + 1]
+    out = Outcome()
+    if case['rerun'].get('main'):
+        viol = run_main_sequence(ctx, base, runs, out, 'replay', verbose=True)
+    else:
+        done = run_sequence(base, runs, out, verbose=True)
+        if done is None:
+            print('case skipped: the namespace does not load')
+            return 0
+        viol = [v for d in done for v in d['viol']]
+    for v in viol:
+        print('VIOLATION-REPRODUCED shape=%s: %s' % (v['shape'], v['what']))
+    return 1 if viol else 0
+
+
 # ------------------------------------------------------------------------------------------ driver
 def prepare(res, case):
     res['targets0'] = set()
@@ -1991,7 +2288,11 @@ def run(ctx):
                 'MThreadRunner with 2-3 workers under the deterministic scheduler of runlib (every call of the runner into the dispatcher '
                 'recorded as a script and compared with Delayed.run_script_cmd; all multi cases, every 4th other case); MThreadRunner with '
                 'real threads; `python -m doit run [-n 2 -P thread|process]` on four fixed dodo families (several names in creates; created tasks with calc_dep vs static twins; sub-task by name + regex-resolved target; who is asked for a target).  non-trivial = distinct case in which a '
-                'creator was evaluated or the selection/run ended with an error') % ctx.n(30, 330)
+                'creator was evaluated or the selection/run ended with an error.  Phase 3 (%d sequences): 2-3 runs in ONE process over the same creator function objects '
+                '(load_tasks on the same namespace dict each time; selections: everything / placeholder / sub-task by name / regex-resolved created target / two words; '
+                'serial Runner or a drawn schedule; every third sequence also through DoitMain twice or three times), every run judged by all oracles, compared with the model '
+                '(fresh loaders per run) and with the same command on a freshly built namespace; non-trivial = sequence in which one creator was evaluated in >= 2 runs') % (
+                    ctx.n(30, 330), ctx.n(45, 450))
     rng = ctx.rng
     n = ctx.n(330, 3630)
     kinds = [None] * 5 + ['k3', 'creates', 'regex', 'auto', 'unknown'] + ['multi'] * 4 + ['calc'] * 4 + ['subrx'] * 2
@@ -2095,11 +2396,55 @@ def run(ctx):
                     if want3 != (rc_m == 3):
                         out.violations.append(dict(what='DoitMain exit status %s but the runner-level run of the same namespace gave %s (%s)' % (
                             rc_m, res2['rc'], err_m[-200:]), shape='doitmain-exit-status', case=dict(sel=case['sel'], auto=case['auto'])))
+    # phase 3 (after the others: their generator stream is untouched): several runs in ONE process over the same creator functions
+    n_rr = ctx.n(45, 450)
+    rr_seq = rr_runs = rr_main = rr_main_runs = 0
+    j = 0
+    while rr_seq < n_rr and j < 3 * n_rr:
+        j += 1
+        case, runs = gen_rerun(rng)
+        before = len(cases)
+        done = run_sequence(case, runs, out, cases, metas, 'r%d' % j)
+        if done is None:
+            skipped += 1
+            out.count('skipped:rerun-load-error')
+            continue
+        rr_seq += 1
+        rr_runs += len(runs)
+        out.count('kind:rerun(%s)' % case['kind'])
+        out.count('rerun: %d runs in the process' % len(runs))
+        for r in runs:
+            out.count('rerun-selection:%s' % r['how'])
+            out.count('rerun-runner:%s' % r['flavour'])
+        per_creator = {}
+        plain_twice = False
+        for d in done:
+            if d['res']:
+                for c in set(e[1] for e in d['res']['events'] if e[0] == 50):
+                    per_creator[c] = per_creator.get(c, 0) + 1
+        for c in case['creators']:
+            if per_creator.get(c['cid'], 0) >= 2:
+                out.count('rerun: creator evaluated in >=2 runs of one process (%s)' % ('creates=' if c['creates'] else 'plain function'))
+                plain_twice = plain_twice or not c['creates']
+        if any(v >= 2 for v in per_creator.values()):
+            out.nontrivial.add(('rerun', str([(r['sel'], r['flavour']) for r in runs]), tuple(tuple(d['res']['trace']) for d in done if d['res'])))
+        if len(out.samples) < 4 and plain_twice and all(d['res'] and d['res']['rc'] == 0 for d in done):
+            out.samples.append(dict(runs_in_one_process=[cmd_of(r) for r in runs], creators=[dict(fname=c['fname'], executed=c['executed'], creates=c['creates'],
+                                                                                                   regex=c['regex']) for c in case['creators']],
+                                    creators_evaluated_per_run=[sorted(e[1] for e in d['res']['events'] if e[0] == 50) for d in done]))
+        if rr_seq % 3 == 0:
+            run_main_sequence(ctx, case, runs, out, 'rr%d' % j)
+            rr_main += 1
+            rr_main_runs += len(runs)
+    out.extra['sequences_of_runs_in_one_process'] = rr_seq
+    out.extra['runs_in_sequences_compared_with_model'] = len(cases) - sum(1 for c_ in cases if 'run_in_process' not in c_['desc'])
+    out.extra['doitmain_sequences_in_one_process'] = rr_main
+    out.extra['doitmain_runs_in_sequences'] = 2 * rr_main_runs
     n_e2e = e2e_family(ctx, out)
     n_e2e += e2e_calc_family(ctx, out)
     n_e2e += e2e_subrx_family(ctx, out)
     n_e2e += e2e_rxcand_family(ctx, out)
-    out.evaluations = len(cases) + n_e2e
+    out.evaluations = len(cases) + n_e2e + 2 * rr_main_runs
     out.extra['serial_runs_compared_with_model'] = n_serial
     out.extra['deterministic_thread_runs_compared_with_model'] = n_dthread
     out.extra['thread_runner_runs_real_threads_oracle_only'] = n_thread
@@ -2111,7 +2456,10 @@ def run(ctx):
     for i, m in bad:
         out.mismatches.append(dict(case=cases[i]['desc'], impl=cases[i]['expected'], model=m,
                                    names={v: k for k, v in metas[i][1]['nid'].m.items()}))
-    out.assumptions = ['creators are data: generate_tasks(to_load, creator()) is an oracle (its result on a silent twin of the creator is the model input)',
+    out.assumptions = ['several runs in one process: the model is applied to each run separately, from freshly loaded loaders (l_created = false, l_basename = None); that the real '
+                       'load_tasks hands out such loaders in every run is checked on the objects (oracle LF) and proved for the model of load_tasks\' copies '
+                       '(C15_every_load_hands_out_fresh_copies); process-level state of doit outside the DelayedLoader objects is covered by the differential oracle RR only',
+                       'creators are data: generate_tasks(to_load, creator()) is an oracle (its result on a silent twin of the creator is the model input)',
                        'Dependency (status_is_ignore/get_status/save_success) is an oracle per task object',
                        'string operations of _filter_tasks (split, startswith, re.match, placeholder names) are oracles given as tables',
                        'iteration order of ExecNode.waiting_me is recorded from the run (wake_rank)',
@@ -2131,6 +2479,8 @@ def run(ctx):
 def replay(ctx, payload):
     """re-run the case of a replay file (written for a violation of the independent oracle) and judge it again"""
     case = payload.get('case') or {}
+    if case.get('rerun'):
+        return replay_rerun(ctx, case)
     if case.get('e2e_calc'):
         viol, norm = e2e_calc_one(ctx, tuple(case['pair']), list(case['runner']), 'replay')
         for t, steps in norm.items():
